@@ -37,8 +37,20 @@ def stripe(name, T, S, W, tiers=('experimental',), timeout=1800, **kw):
             'bounds': '%s, parallel_for_adaptiveWaitDispatch with %d stripe workers, range size 1..%d, granularity 2..8' % (T, W, S)}
 
 
+def kernel(name, T, S, W, c13, tiers=('experimental',), timeout=900, **kw):
+    defs = {'VF_T': T, 'VF_S': S, 'VF_W': W, 'VF_L3': 0, 'VF_GLO': 2 if c13 else 1, 'VF_GHI': 4, 'VF_C13': c13, 'VF_HI': 2}
+    defs.update(kw)
+    return {'name': name, 'src': 'stripe_kernel.cpp', 'engine': 'cbmc', 'defs': defs, 'unwind': S + 3, 'timeout': timeout,
+            'tiers': list(tiers),
+            'bounds': '%s: stripes of one adaptive parallel_for set up by the real calcChunkSize + initStripeState for %d '
+                      'workers, range size 1..%d, granularity %d..4, any start; every stripe claimed to exhaustion with the '
+                      'real stripeClaim (single thread)' % (T, W, S, 2 if c13 else 1)}
+
+
 INSTANCES = [
-    inst('i32_static', 'int32_t', 0, 6, 2, ('quick', 'thorough'), timeout=280, thorough={'timeout': 1700}),
+    kernel('i32_kernel', 'int32_t', 8, 2, 1, tiers=('quick', 'thorough')),
+    kernel('u64_kernel', 'uint64_t', 8, 2, 1, tiers=('thorough',), VF_HI=0),
+    inst('i32_static', 'int32_t', 0, 6, 2, ('quick', 'thorough'), timeout=700, thorough={'timeout': 1700}),
     inst('i32_static_wide', 'int32_t', 0, 10, 3, ('thorough',), timeout=1700),
     # encoded but not finishing within the limits (see NOTES.md); the expected outcome of the unaligned ones is a violation
     inst('i32_adaptive_aligned', 'int32_t', 1, 6, 1, ('experimental',), VF_WAIT=1, VF_NLO=1, VF_L3=0, VF_CTX=0, VF_ALIGNED_START=1, timeout=1800),
